@@ -18,7 +18,7 @@ func init() {
 	register("C10", func(tier string) CheckSpec {
 		depth, budget := 4, 240*time.Second
 		if tier == "thorough" {
-			depth, budget = 6, 30*time.Minute
+			depth, budget = 6, 20*time.Minute
 		}
 		us := []Unit{Search{Sc: Lifecycle{Variant: "base"}, Depth: depth}}
 		for _, l := range []string{"205", "150+100", "199+2+3"} {
